@@ -23,6 +23,6 @@ CFG = dict(
     ],
 )
 MANIFEST = dict(
-    text="Lock-table safety (refusal of a request that meets a held key, all-or-nothing grant, foreign locks untouched), nothing-left-behind after release / commit / abort / timeout (forward-index and reverse-edge invariants over every reachable state), expiry sweep, DFS soundness and completeness for every iteration order (a cycle is reported exactly when the recorded wait-for relation has one) and victim-in-cycle are Coq theorems over the LockManager/WaitForGraph/DeadlockDetector model for all op sequences; decision expressions and the structural facts the proofs use (atomic ops, finish releases by tx and leaves the graph) are regenerated from distributed_tx.rs on every run; the model is compared with the real code on seeded lock-manager and coordinator sequences under a controlled clock, on all small and random wait-for graphs, plus a thread stress with a mutual-exclusion oracle.",
+    text="Lock-table safety (refusal of a request that meets a held key, all-or-nothing grant, foreign locks untouched), nothing-left-behind after release / commit / abort / timeout (forward-index and reverse-edge invariants over every reachable state), expiry sweep, DFS soundness, completeness and termination within |transactions|+1 levels for every iteration order (end to end: on any graph with at most max_cycle_length transactions a deadlock is reported exactly when the recorded wait-for relation has a cycle, each reported cycle is a cycle, the victim is in it) are Coq theorems over the LockManager/WaitForGraph/DeadlockDetector model for all op sequences; decision expressions and the structural facts the proofs use (atomic ops, finish releases by tx and leaves the graph) are regenerated from distributed_tx.rs on every run; the model is compared with the real code on seeded lock-manager and coordinator sequences under a controlled clock, on all small and random wait-for graphs, plus a thread stress with a mutual-exclusion oracle.",
     note="Trusted: Coq kernel, rs2v.py + gen_C12.py, harness + driver, the clock hook. Modelled not verified: hash containers as lists, u64 as N, RwLock atomicity; wait-graph clauses are sequential (stress-tested only under threads).",
 )
